@@ -102,6 +102,7 @@ CLAUSES = {
     14: "verifier accepted a certificate valid for more than 14 days",
     15: "verifier accepted a certificate that is not currently valid",
     16: "dial completed although the server did not confirm every hash of the address",
+    17: "a dial with an address learned from the running listener in its current/previous period did not complete",
 }
 SIG = {0: "ECDSA", 1: "RSA-PKCS1v15", 2: "RSA-PSS", 3: "Ed25519"}
 RES = {0: "accepted", 1: "no cert", 2: "hash mismatch", 3: "parse error", 4: "RSA", 5: "too long", 6: "not valid"}
@@ -153,12 +154,13 @@ def describe(t):
             ch, i = _chain(t, 1)
             hs, i = _plist(t, i)
             return {"kind": "verifyRawCerts", "chain": ch, "address_hashes(code,id)": hs, "result": RES.get(t[i], t[i])}
-        if t[0] in (3, 6):
+        if t[0] in (3, 6, 7):
             ch, i = _chain(t, 1 if t[0] == 3 else 2)
             ad, i = _plist(t, i)
             dec = t[i]
             sv, i = _plist(t, i + 1)
-            return {"kind": "dial", "dialer": {0: "default transport", 1: "WithTLSClientConfig (no callback)", 2: "WithTLSClientConfig with a user VerifyPeerCertificate that accepts everything"}[t[1] if t[0] == 6 else 0],
+            return {"kind": "dial", "dialer": {0: "default transport", 1: "WithTLSClientConfig (no callback)", 2: "WithTLSClientConfig with a user VerifyPeerCertificate that accepts everything", 3: "WithTLSClientConfig{InsecureSkipVerify}", 4: "WithTLSClientConfig{RootCAs = the server's certificates}"}.get(t[1] if t[0] in (6, 7) else 0),
+                    "genuine": t[0] == 7,
                     "server_chain": ch, "address_hashes(code,id)": ad, "server_list_decodes": dec,
                     "server_early_data(code,id)": sv,
                     "outcome": {0: "connected", 1: "refused by certificate check", 2: "refused in upgrade"}.get(t[i], t[i])}
@@ -200,10 +202,10 @@ def nontrivial(line):
 
 def key(tag, toks, d):
     # identity = clause + call site + the canonical minimal input class
-    if toks[0] in (2, 3, 6) and len(d) >= 2:
+    if toks[0] in (2, 3, 6, 7) and len(d) >= 2:
         cl = d[1]
-        site = "verifyRawCerts" if toks[0] == 2 else ("dial" if toks[0] == 3 else "dial(WithTLSClientConfig,cfg=%d)" % toks[1])
-        if toks[2 if toks[0] == 6 else 1] >= 2:
+        site = "verifyRawCerts" if toks[0] == 2 else ("dial" if toks[0] == 3 else "dial(cfg=%d%s)" % (toks[1], ",genuine" if toks[0] == 7 else ""))
+        if toks[2 if toks[0] in (6, 7) else 1] >= 2:
             # the judged certificate (first of the chain) is not the one the verifier inspected
             return "C18:%s:chain>=2:first-certificate:clause%d" % (site, cl)
         if cl == 13:
@@ -217,8 +219,8 @@ def key(tag, toks, d):
 
 
 def what(tag, toks, d):
-    if toks[0] in (2, 3, 6) and len(d) >= 2:
-        site = "verifyRawCerts" if toks[0] == 2 else ("Dial" if toks[0] == 3 else "Dial by a transport built with WithTLSClientConfig (cfg %d)" % toks[1])
+    if toks[0] in (2, 3, 6, 7) and len(d) >= 2:
+        site = "verifyRawCerts" if toks[0] == 2 else ("Dial" if toks[0] == 3 else "Dial (dialer cfg %d%s)" % (toks[1], ", untampered listener after >= 1 rollover, address as its multiaddr carried it" if toks[0] == 7 else ""))
         return "%s: %s (diag %s)" % (site, CLAUSES.get(d[1], "?"), d)
     if len(d) >= 5 and d[2] == 9:
         return "%s timeline started at t0=%d: address learned at t=%d (sample %d) is not confirmed by the same manager's handshake list at t=%d (diag %s)" % (
